@@ -30,7 +30,9 @@ def history(g, rnd, ids):
                 insts.append(instgen.Inst(g.opv["TypeInt"], "TypeInt", None, rid, [instgen.Op("w", L32, w), instgen.Op("w", L32, rnd.randrange(2))]))
                 tracked[rid] = ("int", w)
             else:
-                insts.append(instgen.Inst(g.opv["TypeFloat"], "TypeFloat", None, rid, [instgen.Op("w", L32, w)]))
+                # half of the float types carry the optional FPEncoding operand: the width is tracked all the same
+                enc = [instgen.Op("w", g.vix["FPEncoding"], g.enums["FPEncoding"]["decl"][0][1])] if rnd.random() < 0.5 else []
+                insts.append(instgen.Inst(g.opv["TypeFloat"], "TypeFloat", None, rid, [instgen.Op("w", L32, w)] + enc))
                 tracked[rid] = ("float", w)
         elif r < 0.5:
             # value definition: %rid = OpUndef %t  (or OpCopyObject %t %x): propagates the tracked type of %t
